@@ -19,6 +19,7 @@ func init() {
 			RuleDef{Name: "MEMBER-ACCEPT", What: "bgzf nextBlockAt hands every member that readMember read without error to the decompressor: the reader refuses nothing the writer's BSIZE admits (added after eighth-round seed C01-j: a bound on the deflate stream's length that incompressible data exceeds)", Floor: 1, Run: ruleMemberAccept},
 			RuleDef{Name: "PATH-NEED", What: "the reader accepts every member size a conforming writer can produce (1..MaxBlockSize) and classifies 0 / negative / missing BSIZE", Floor: 1, Run: ruleNeed},
 			RuleDef{Name: "PATH-READFULL", What: "member body = exactly BSIZE+1 minus consumed header bytes", Floor: 2, Run: ruleReadFull},
+			RuleDef{Name: "READ-FILLS", What: "Reader.Read returns as its error the recorded one (or nil; io.EOF only in Blocked mode), never the io.EOF of a block that is merely used up: reading back ends with io.EOF at the end of the data only (shared with C02; here since fourteenth-round seed C01-p)", Floor: 2, Run: ruleReadFills},
 			RuleDef{Name: "GEN-BIND", What: "read-ahead generations: a result read for the latest instruction never looks stale (shared with C02, C03, C09: reading back with rd > 1 returns)", Floor: 2, Run: ruleGenBind},
 			RuleDef{Name: "FAILED-CURRENT", What: "nextBlock makes the failed block current before it returns its error – the end of the data included (shared with C02, C09)", Floor: 1, Run: ruleFailedCurrent},
 			RuleDef{Name: "ERR-OVERWRITE", What: "a possibly failing store to Reader.err is read before the field is assigned again (shared with C09: io.EOF is such a store)", Floor: 2, Run: ruleErrOverwrite},
@@ -31,6 +32,7 @@ func init() {
 		ID: "C08", Title: "BGZF output is spec-conformant, gzip-compatible, deterministic and EOF-marked", Level: "other",
 		Rules: append([]RuleDef{bgzfConst, bsize, fextra, hasEOF,
 			{Name: "OWN-WRITE-ARG", What: "Writer.Write only measures, reslices and copies from its argument; no slice of the caller's buffer is stored, sent or captured (added after a blind second seed round)", Floor: 1, Run: ruleWriteArgOwned},
+			{Name: "MARKER-ONCE", What: "the EOF marker constant is used by HasEOF and, once, by Writer.Close – nothing else can emit the 28 bytes that mean \"closed without error\" (added after fourteenth-round seeds C08-o, C10-p: an empty block written as the constant)", Floor: 1, Run: ruleMarkerOnce},
 			{Name: "SHARED-STATE", What: "package bgzf keeps no state that one Writer or Reader writes and another reads: every package-level variable is read-only, or an object pool whose objects are reset between instances (added after tenth-round seed C08-l: compressor buffers recycled through a sync.Pool as they were left)", Floor: 8,
 				Run:    ruleSharedState([]string{"bgzf"}),
 				Canary: func(cc *Ctx, r *Rep) { ruleSharedState([]string{"poolc"})(cc, r, "") }, WantFail: []string{"poolc.dirtyPool#shared-state", "poolc.seen#shared-state"}, WantPassMin: 3},
@@ -45,6 +47,7 @@ func init() {
 	register(&PropDef{
 		ID: "C12", Title: "Writer emits whole blocks in write order; Flush+Wait makes written data durable", Level: "other",
 		Rules: append(writerRules("W1", "W2", "W3", "W4", "W5", "W6", "W9", "PATH-WAIT"),
+			RuleDef{Name: "W-DIRECT", What: "Writer.w is the writer the caller gave, not a layer of the library's around it: W4's one-Write-per-block is then a statement about the destination (added after fourteenth-round seed C12-p)", Floor: 1, Run: ruleWDirect},
 			bsize,
 			RuleDef{Name: "OWN-WRITE-ARG", What: "Writer.Write only measures, reslices and copies from its argument (shared with C01/C08; under C12 since sixth-round seed C12-h: blocks arrive whole and in order but hold bytes the caller wrote into its buffer later)", Floor: 1, Run: ruleWriteArgOwned},
 			RuleDef{Name: "FLUSH-CUTS", What: "Writer.Flush cuts the active block unless it is empty: data written before a Flush that returned nil is on its way (shared with C08)", Floor: 1, Run: ruleFlushCuts},
